@@ -91,7 +91,7 @@ def run_side(f):
     return ('ok', tu.canon(a)), a
 
 
-def check(gtext, start, text, settings, tagging, cache=None, direct=True):
+def check(gtext, start, text, settings, tagging, cache=None, direct=True, history=None):
     """returns (detail|None, info). cache: optional dict carrying (model, cls, mod)"""
     import tatsu
     from tatsu.exceptions import CodegenError
@@ -130,10 +130,23 @@ def check(gtext, start, text, settings, tagging, cache=None, direct=True):
             own = None
     try:
         kw = dict(settings)
+        # one generated-parser object serves all the parses of a case (after failures, with other settings before): the model builds a
+        # fresh context per parse, a parser object must behave as if it did
+        if cache is not None:
+            inst = cache.setdefault('inst', cls())
+            cache.setdefault('hist', []).append((text, dict(settings), tagging))
+        else:
+            inst = cls()
+            for ptext, pkw, ptag in (history or []):
+                try:
+                    with watchdog(10):
+                        run_side(lambda: inst.parse(ptext, start='VF_WRAP', semantics=Tagging() if ptag else None, **pkw))
+                except CaseTimeout:
+                    pass
         try:
             with watchdog(10):
                 m, ma = run_side(lambda: model.parse(text, start='VF_WRAP', semantics=Tagging() if tagging else None, **kw))
-                g, ga = run_side(lambda: cls().parse(text, start='VF_WRAP', semantics=Tagging() if tagging else None, **kw))
+                g, ga = run_side(lambda: inst.parse(text, start='VF_WRAP', semantics=Tagging() if tagging else None, **kw))
         except CaseTimeout:
             info['skip'] = 'timeout'
             return None, info
@@ -283,7 +296,7 @@ def run_shard(sh, n):
                             sample=dict(grammar=gtext, input=text2, settings=sname, tagging=tagging))
                     if d is not None:
                         sh.fail(d['bucket'], dict(rules=rules, directives=directives, keywords=keywords, ruleinfo=ruleinfo, start=start,
-                                                  input=text2, settings=st, tagging=tagging), d)
+                                                  input=text2, settings=st, tagging=tagging, history=[list(h) for h in cache.get('hist', [])[:-1]]), d)
                         if d['bucket'].startswith(('codegen', 'invalid-python', 'no-parser')):
                             return
         finally:
@@ -304,7 +317,7 @@ def _norm(case):
 def replay(case):
     rules, directives, keywords, ruleinfo = _norm(case)
     gtext = build(rules, directives, keywords, ruleinfo)
-    d, _ = check(gtext, case['start'], case['input'], case.get('settings') or {}, case.get('tagging', False))
+    d, _ = check(gtext, case['start'], case['input'], case.get('settings') or {}, case.get('tagging', False), history=case.get('history'))
     return d
 
 
@@ -313,6 +326,11 @@ def shrink_candidates(case):
     text = case['input']
     for i in range(len(text)):
         yield dict(case, input=text[:i] + text[i + 1:])
+    hist = case.get('history') or []
+    if hist:
+        yield dict(case, history=[])
+        for i in range(len(hist)):
+            yield dict(case, history=hist[:i] + hist[i + 1:])
     if case.get('tagging'):
         yield dict(case, tagging=False)
     if case.get('settings'):
